@@ -1,16 +1,178 @@
 package main
 
 import (
+	"flag"
 	"fmt"
-	"golang.org/x/tools/go/packages"
-	"golang.org/x/tools/go/ssa"
-	"golang.org/x/tools/go/ssa/ssautil"
+	"os"
+	"sort"
+	"strings"
+	"time"
 )
 
+func usage() {
+	fmt.Fprintln(os.Stderr, `mbcheck — repository-specific static analyser for 6RiverSystems/mmmbbb
+  mbcheck run -property Cxx [-tier quick|thorough]   decide one property on /repo's working tree
+  mbcheck all [-tier quick]                           every property, one load
+  mbcheck dump [-fn substr]                           print every ORM statement shape (K1)
+  mbcheck selftest [-property Cxx]                    seeded mutants + negative controls (overlay only)
+  mbcheck explain <violation.json>                    re-print a violation record`)
+	os.Exit(2)
+}
+
 func main() {
-	cfg := &packages.Config{Mode: packages.LoadSyntax, Dir: "/repo"}
-	pkgs, err := packages.Load(cfg, "./...")
-	fmt.Println(len(pkgs), err)
-	prog, _ := ssautil.Packages(pkgs, ssa.InstantiateGenerics)
-	prog.Build()
+	if len(os.Args) < 2 {
+		usage()
+	}
+	switch os.Args[1] {
+	case "dump":
+		fs := flag.NewFlagSet("dump", flag.ExitOnError)
+		sub := fs.String("fn", "", "only statements in functions containing this substring")
+		fs.Parse(os.Args[2:])
+		c, err := Load(nil, nil, nil)
+		if err != nil {
+			fmt.Fprintln(os.Stderr, err)
+			os.Exit(1)
+		}
+		es := c.EntShape()
+		fmt.Printf("packages=%d functions=%d statements=%d\n", len(c.Pkgs), len(c.Funcs), len(es.Stmts))
+		for _, s := range es.Stmts {
+			if *sub != "" && !strings.Contains(c.Key(s.Fn), *sub) {
+				continue
+			}
+			fmt.Print(c.StmtString(s))
+		}
+	case "funcs":
+		c, err := Load(nil, nil, nil)
+		if err != nil {
+			fmt.Fprintln(os.Stderr, err)
+			os.Exit(1)
+		}
+		var ks []string
+		for k := range c.FuncByKey {
+			ks = append(ks, k)
+		}
+		sort.Strings(ks)
+		for _, k := range ks {
+			fmt.Println(k)
+		}
+	case "run":
+		fs := flag.NewFlagSet("run", flag.ExitOnError)
+		prop := fs.String("property", "", "property id")
+		tier := fs.String("tier", "quick", "quick|thorough")
+		fs.Parse(os.Args[2:])
+		if t := os.Getenv("VERIF_TIER"); t != "" && *tier == "" {
+			*tier = t
+		}
+		os.Exit(runProps([]string{*prop}, *tier))
+	case "all":
+		fs := flag.NewFlagSet("all", flag.ExitOnError)
+		tier := fs.String("tier", "quick", "quick|thorough")
+		fs.Parse(os.Args[2:])
+		var ids []string
+		for _, p := range allProps() {
+			ids = append(ids, p.ID)
+		}
+		os.Exit(runProps(ids, *tier))
+	case "selftest":
+		fs := flag.NewFlagSet("selftest", flag.ExitOnError)
+		prop := fs.String("property", "", "restrict to one property")
+		fs.Parse(os.Args[2:])
+		os.Exit(selftest(*prop, true))
+	case "mutant":
+		if len(os.Args) < 3 {
+			usage()
+		}
+		os.Exit(runOneMutant(os.Args[2]))
+	case "explain":
+		if len(os.Args) < 3 {
+			usage()
+		}
+		b, err := os.ReadFile(os.Args[2])
+		if err != nil {
+			fmt.Fprintln(os.Stderr, err)
+			os.Exit(1)
+		}
+		fmt.Println(string(b))
+	default:
+		usage()
+	}
+}
+
+func propByID(id string) *propInfo {
+	for _, p := range allProps() {
+		if p.ID == id {
+			return p
+		}
+	}
+	return nil
+}
+
+// runProps loads the tree once (with positive controls when they type-check)
+// and evaluates the rules of each requested property.
+func runProps(ids []string, tier string) int {
+	start := time.Now()
+	for _, id := range ids {
+		if propByID(id) == nil {
+			fmt.Fprintf(os.Stderr, "unknown property %q\n", id)
+			return 2
+		}
+	}
+	ctrlOv, ctrlFiles := controlOverlay()
+	c, err := Load(ctrlOv, nil, ctrlFiles)
+	controlsLoaded := true
+	if err != nil {
+		// a control may stop type-checking on a changed tree: fall back, say so
+		c2, err2 := Load(nil, nil, nil)
+		if err2 != nil {
+			for _, id := range ids {
+				fmt.Printf("load failed: %v\n", err2)
+				failLoad(id, tier, err2, start)
+			}
+			return 1
+		}
+		c2.LoadNotes = append(c2.LoadNotes, "positive controls did not type-check on this tree and were left out: "+err.Error())
+		c, controlsLoaded = c2, false
+	}
+	rc := 0
+	for _, id := range ids {
+		p := propByID(id)
+		r := newRep(c, id)
+		t0 := start
+		start = time.Now()
+		func() {
+			defer func() {
+				if e := recover(); e != nil {
+					r.Fail("panic", "analyser", 0, fmt.Sprintf("analyser panic (treated as failure): %v", e))
+				}
+			}()
+			for _, rule := range p.Rules {
+				if rule.Ctrl {
+					r.ExpectControl(rule.ID)
+				}
+				rule.Run(c, r)
+			}
+		}()
+		extra := map[string]any{}
+		var rules []string
+		for _, rule := range p.Rules {
+			rules = append(rules, rule.ID+": "+rule.Doc)
+		}
+		extra["rules_applied"] = rules
+		if tier == "thorough" {
+			thoroughExtras(c, p, r, extra)
+		}
+		if n := finish(c, r, p, tier, t0, extra, controlsLoaded); n > 0 {
+			rc = 1
+		}
+	}
+	_ = start
+	return rc
+}
+
+func failLoad(id, tier string, err error, start time.Time) {
+	p := propByID(id)
+	c := &Ctx{RepoDir: repoDir()}
+	r := newRep(c, id)
+	r.Obs = append(r.Obs, &Ob{Rule: "load", Key: "tree", Pos: "-", Status: "violation", Msg: err.Error()})
+	finish(c, r, p, tier, start, nil, false)
 }
